@@ -506,6 +506,9 @@ type LeakCase struct {
 	PeerFault string `json:"peerFault"`
 	// NewSubs: every update of the measured phase is the first one of a subscriber the CHF has not seen before
 	NewSubs bool `json:"newSubs"`
+	// Used: the volumes reported as used, in turn (default: always 5 of the 10 requested -- a report below the grant;
+	// 10 and more settle the whole reservation, 0 reports nothing)
+	Used []int `json:"used"`
 }
 
 func establishedTo(ports ...int) int {
@@ -591,6 +594,10 @@ func RunLeak(prefix, in, out string) error {
 		for i := 0; i < c.N; i++ {
 			s := i % c.Subs
 			final := c.FinalAt > 0 && (i+1)%c.FinalAt == 0
+			leakUsed = 5
+			if len(c.Used) > 0 {
+				leakUsed = c.Used[i%len(c.Used)]
+			}
 			if c.NewSubs {
 				supi := fmt.Sprintf("imsi-%s%d9%03d", prefix, ci, i)
 				env.PutAccount(supi, 1, "2000000000", "1")
@@ -621,12 +628,14 @@ func RunLeak(prefix, in, out string) error {
 		time.Sleep(400 * time.Millisecond)
 		samples = append(samples, map[string]any{"i": c.N, "conns": establishedTo(env.RfPort, env.AbPort), "tasks": runtime.NumGoroutine() - base})
 		b, _ := json.Marshal(map[string]any{"trace": c.ID, "seq": ci, "action": "leak", "n": c.N, "subs": c.Subs, "baseConns": baseConn,
-			"samples": samples, "failed": bad, "noAcct": c.NoAcct || faulty, "peerFault": c.PeerFault})
+			"samples": samples, "failed": bad, "used": c.Used != nil, "noAcct": c.NoAcct || faulty, "peerFault": c.PeerFault})
 		_, _ = w.Write(b)
 		_ = w.WriteByte('\n')
 	}
 	return nil
 }
+
+var leakUsed = 5
 
 func leakUpdate(env *Env, supi, ref string, seq int, final, noAcct bool) int {
 	extra := ""
@@ -637,7 +646,7 @@ func leakUpdate(env *Env, supi, ref string, seq int, final, noAcct bool) int {
 	if final {
 		trig = `,"triggers":[{"triggerType":"FINAL","triggerCategory":"IMMEDIATE_REPORT"}]`
 	}
-	upd := fmt.Sprintf(`{"subscriberIdentifier":%q,"invocationSequenceNumber":%d,"multipleUnitUsage":[{"ratingGroup":1,"requestedUnit":{"totalVolume":10},"usedUnitContainer":[{"quotaManagementIndicator":"ONLINE_CHARGING","totalVolume":5,"localSequenceNumber":%d}]}%s]%s}`,
-		supi, seq, seq, extra, trig)
+	upd := fmt.Sprintf(`{"subscriberIdentifier":%q,"invocationSequenceNumber":%d,"multipleUnitUsage":[{"ratingGroup":1,"requestedUnit":{"totalVolume":10},"usedUnitContainer":[{"quotaManagementIndicator":"ONLINE_CHARGING","totalVolume":%d,"localSequenceNumber":%d}]}%s]%s}`,
+		supi, seq, leakUsed, seq, extra, trig)
 	return env.Do("POST", "/nchf-convergedcharging/v3/chargingdata/"+ref+"/update", []byte(upd), nil, 60*time.Second).Status
 }
